@@ -68,7 +68,7 @@ var mergeDirs = []string{".", "closers/hystrix", "closers/simplelogic", "metrics
 
 func main() {
 	if len(os.Args) < 2 {
-		fmt.Fprintln(os.Stderr, "usage: translate merge|access -repo /repo -out file.v")
+		fmt.Fprintln(os.Stderr, "usage: translate merge|access|retry -repo /repo -out file.v")
 		os.Exit(2)
 	}
 	fs := flag.NewFlagSet(os.Args[1], flag.ExitOnError)
@@ -82,6 +82,8 @@ func main() {
 		emitMerge(types, *out, *table)
 	case "access":
 		emitAccess(*repo, *out, *table)
+	case "retry":
+		emitRetry(*repo, *table)
 	default:
 		fmt.Fprintln(os.Stderr, "unknown mode")
 		os.Exit(2)
